@@ -66,6 +66,8 @@ def mol(key):
             m = M(XYZ_H2, q=0, spin=0, basis="sto-3g")
         elif key == "H2+":
             m = M(XYZ_H2, q=1, spin=1, basis="sto-3g")
+        elif key == "H2t":      # triplet: both electrons alpha
+            m = M(XYZ_H2, q=0, spin=2, basis="sto-3g")
         elif key == "H2uhf":
             m = M(XYZ_H2S, q=0, spin=0, basis="sto-3g", uhf=True)
         elif key == "H4":
@@ -191,7 +193,8 @@ def make(kind, cfg):
     if kind == "qcc":
         from tangelo.toolboxes.ansatz_generator.qcc import QCC
         if c.get("mol"):
-            return QCC(mol(c["mol"]), mapping=c["mapping"], up_then_down=c["utd"])
+            extra = {"max_qcc_gens": c["max_gens"]} if c.get("max_gens") else {}
+            return QCC(mol(c["mol"]), mapping=c["mapping"], up_then_down=c["utd"], **extra)
         dis = [_qop([(w, 1.)]) for w in c["dis"]]
         return QCC({"n_spinorbitals": 4, "n_electrons": 2, "spin": 0}, mapping=c["mapping"], up_then_down=True,
                    qubit_ham=_qop(H_QCC4), dis=dis)
@@ -587,6 +590,7 @@ def h_length(env, kind, cfg):
         v = [env.real(f"x{L}_{i}", lo=0.25, hi=1) for i in range(L)]
         if L == n:
             A = fresh_built()
+            env.check_same(A.n_var_params, n, f"{kind}: n_var_params advertised before the first build_circuit is the one in force afterwards")
             with sym_alloc(env):
                 A.set_var_params(list(v))
                 A.update_var_params(list(v))
@@ -807,6 +811,8 @@ def configs(tier):
         out.append(("upccgsd", dict(mol="H2", mapping="jw", utd=False, k=4), 0, 2, reference_bits(4, 1, 1, "jw", False)))
     for mp, utd in (("jw", False), ("bk", False), ("scbk", True), ("jw", True)):
         out.append(("uccgd", dict(mol="H2", mapping=mp, utd=utd), 1, 4, reference_bits(4, 1, 1, mp, utd)))
+    for mp, utd in (("jw", False), ("bk", True)):       # high-spin reference (n_alpha = 2, n_beta = 0)
+        out.append(("uccgd", dict(mol="H2t", mapping=mp, utd=utd), 0, 1, reference_bits(4, 2, 0, mp, utd)))
     out.append(("puccd", dict(mol="H2"), 1, 4, [1, 0]))
     out.append(("puccd", dict(mol="H4"), 2, 8, [1, 1, 0, 0]))
     for nq, layers, rot in ((2, 1, "euler"), (2, 2, "real"), (3, 1, "real"), (3, 2, "euler"), (3, 1, "euler"), (2, 2, "euler")):
@@ -831,6 +837,7 @@ def configs(tier):
         out.append(("qmf", dict(mol="H2", mapping=mp, utd=utd), 0, 2, False))
     out.append(("qcc", dict(mol="H2", mapping="jw", utd=True), 0, 2, False))
     out.append(("qcc", dict(mol="H2", mapping="scbk", utd=True), 0, 2, False))
+    out.append(("qcc", dict(mol="H2", mapping="jw", utd=True, max_gens=3), 0, 1, False))       # more generators allowed than DIS groups exist
     out.append(("qcc", dict(mapping="jw", dis=["Y0 X1 X2 X3", "Y0 X1", "Y2 X3"]), 2, 8, False))
     out.append(("qcc", dict(mapping="jw", dis=["X0 Y1 X2 X3", "Y2 X3"]), 1, 6, False))
     out.append(("ilc", dict(mol="H2", mapping="jw", utd=True), 0, 2, False))
